@@ -34,7 +34,7 @@ ASSUMPTIONS = ["positional items stay within the list levels above the record (b
                "ak.zip stops at the deepest level all columns share; columns have equal list depth and no option-type lists, so unzip returns them unchanged",
                "regular and variable-length list types are compared as 'list' (broadcasting may turn one into the other)"]
 PLAN = {
-    "quick": [{"flavour": "plain", "cases": 18000}, {"flavour": "san", "cases": 3000}],
+    "quick": [{"flavour": "plain", "cases": 12000}, {"flavour": "san", "cases": 2000}],
     "thorough": [{"flavour": "plain", "cases": 600000}, {"flavour": "san", "cases": 150000}],
 }
 WALL_CAP = {"quick": 900, "thorough": 3300}
